@@ -16,6 +16,6 @@ CONSTANTS
   MaxHist = 0
 VIEW TraceView
 CONSTRAINT HighWater
-INVARIANTS TrInOrder TrAccounting TrDropOnlyWhenFull TrCounted TrReports Prompt EndStreams EndCounts
+INVARIANTS TrInOrder TrAccounting TrDropOnlyWhenFull TrCounted TrReports Prompt DeadlineHonoured EndStreams EndCounts
 POSTCONDITION TraceAccepted
 CHECK_DEADLOCK FALSE
